@@ -257,28 +257,49 @@ class Machine(object):
         if c is None:
             c = Cell(None, name); s.allocs[k] = c
         return c
-    MAXALLOC = 8
-    def alloc_n(s, th, key, name, g):
-        """heap allocation at the current site: [(case guard, cell)].  One cell per (thread, site, occurrence); the occurrence count
-        (how often this thread has executed the site so far) lives in the executing state's own environment, so it is a constant
-        along a path and only becomes a case split where paths with different histories were merged.  Distinct live allocations of
-        one site therefore never share a cell (a second Arc::new at the same site used to overwrite the first one's content while
-        a clone of the first was still registered as a waker)."""
+    MAXALLOC = 6
+    def alloc_n(s, th, key, name, g, dead=None):
+        """heap allocation at the current site: [(case guard, cell)].  One cell per (thread, site, instance index).  The number of
+        instances this thread has in use (the next fresh index) lives in the executing state's own environment, so it is a constant
+        along a path and only becomes a case split where paths with different histories were merged.  An earlier instance is re-used
+        only if `dead(cell, guard)` shows *syntactically* that it has been released (Arc: strong count 0 and never downgraded; Box:
+        freed); otherwise a fresh cell is taken.  Distinct live allocations of one site therefore never share a cell (before, a second
+        Arc::new at the same site overwrote the first one's content while a clone of the first was still registered as a waker)."""
         st = s.st
         if st is None or th is None: return [(TRUE, s.alloc(th, key, name))]
         cnt = st.get('__alloc__', key)
         if cnt is None: cnt = ZERO
         cs = cases(cnt)
         if cs is None: raise EncodeError('allocation count is not a choice among constants')
-        out = []
+        if len(cs) > 1: s.stats['alloc_split'] = s.stats.get('alloc_split', 0) + 1
+        cell = lambda v: s.alloc(th, tuple(key) + ((('#', v),) if v else ()), name + ('#%d' % v if v else ''))
+        out = []; newcnt = cnt
         for v, cg in cs:
             gg = And(g, cg)
             if gg is FALSE: continue
-            if v >= s.MAXALLOC:
-                s.oblige('bound', 'allocation site %s executed more than %d times by one thread' % (name, s.MAXALLOC), gg); continue
-            out.append((cg if len(cs) > 1 else TRUE, s.alloc(th, tuple(key) + ((('#', v),) if v else ()), name + ('#%d' % v if v else ''))))
-        st.set('__alloc__', key, Ite(g, Add(cnt, ONE), cnt) if g is not TRUE else Add(cnt, ONE))
-        return out
+            # a second or later instance is rare in real executions but common under infeasible guards (e.g. the 'not started yet' arm
+            # of a job that is run again in a loop): ask the solver before multiplying cells
+            if v >= 1 and s.pruner is not None and not s.pruner.feasible(gg):
+                s.stats['pruned'] = s.stats.get('pruned', 0) + 1; continue
+            pick = None
+            if dead is not None:
+                for j in range(v):
+                    if dead(cell(j), gg): pick = j; break
+            if pick is None:
+                pick = v
+                if v >= s.MAXALLOC:
+                    s.oblige('bound', 'more than %d live allocations of site %s by one thread' % (s.MAXALLOC, name), gg); continue
+                newcnt = Ite(cg, BV(v + 1), newcnt) if len(cs) > 1 else BV(v + 1)     # state-local value: implicitly under the state's guard
+                if v >= 1:
+                    import os
+                    if os.environ.get('VERIF_DEBUG_ALLOC'): print('  ALLOC %s instance %d by %s  (prev: %r)' % (name, v, th.name, s.load(Ref.to(cell(v - 1)), gg) if cell(v - 1).val is not None else None))
+                s.stats['alloc_max'] = max(s.stats.get('alloc_max', 0), v + 1)
+            out.append((cg if len(cs) > 1 else TRUE, cell(pick)))
+        if newcnt is not cnt: st.set('__alloc__', key, newcnt)
+        # two cases may pick the same cell: merge their guards
+        merged = {}
+        for cg, c in out: merged[c.id] = (Or(merged[c.id][0], cg), c) if c.id in merged else (cg, c)
+        return list(merged.values())
     def fn_of(s, cp): return s.prog.fns[cp[-1][0]]
     # ---------------------------------------------------------------- memory
     def getpath(s, v, path):
@@ -874,6 +895,8 @@ class Machine(object):
                 s.oblige('junk', 'call with undispatchable receiver: %s in %s' % (t[2][:80], s.fn_of(st.cp).name), gg)
             else: raise EncodeError('dispatch target ' + repr(target))
     def enter_fn(s, th, st, f, args, alt=None):
+        for suffix, cb in getattr(s, 'enter_hooks', ()):
+            if f.name.endswith(suffix): cb(th, st, f, args, st.g)
         ncp = st.cp + ((f.key, st.blk, alt),)
         if len(ncp) > 60: raise EncodeError('call depth')
         np_ = len(f.params)
